@@ -30,13 +30,35 @@ boundary; every legal history `ops` of `parse` (any input chunking, any `dest`),
   unread remainder and the report of the next call ARE the reference's;
 * `str_chunk_invariance` (= `str_chunk_invariance_partial`) — two drained histories over the same
   bytes agree on all of that, whatever the chunking / `dest` sizes / interleaving; they agree on
-  the delivered stream bytes unless a call with `dest = Some` returned `Err`;
+  the stream bytes made available unless the first call that returned `Err` was one into a `dest`
+  (`FirstErrInternal`), and on the reported ones whenever the outcome is not a fatal error;
+* `err_in_records`, `end_in_records` — the same two in terms of `refRun`'s stop index and the tail;
 * `str_chunk_invariance_full_false` — the exception is real: `parse` returns
   `Result<Status, Error>`, so the bytes a failing call wrote into `dest` are not reported, and how
   many these are depends on the chunking (witness: `Stdin("ABC")` followed by `AbortRequest`);
 * `fatal_sticky` — re-export of `C03S.err_sticky`.
 
 Restriction kept visible: histories without `set_stream` (`NoSet`), active stream `some s`.
+
+**How `refRun` treats a well-formed record `r`** (request `E.id`, role `E.role`, active stream `E.s`;
+`rclass`), to be cross-checked against `parse_head` in `stream.rs`:
+
+| record                                                              | class       | effect |
+|---------------------------------------------------------------------|-------------|--------|
+| type `E.s`, id `E.id`, content non-empty                            | `data`      | content appended |
+| type `E.s`, id `E.id`, content empty                                | `endStream` | stop `endOfStream k` (header held back) |
+| Stdin/Data ≠ `E.s`, id `E.id`, LATER in the role's stream order     | `endStream` | stop `endOfStream k` |
+| Stdin/Data ≠ `E.s`, id `E.id`, not later (an EARLIER stream, or a stream the role has not) | `noise` | skipped, no reply |
+| AbortRequest, id `E.id`                                             | `abort`     | stop `abort k` = `Err(AbortRequest)`, header left in place |
+| type byte not in 1..11 (any id)                                     | `noise`     | reply `UnknownType(type)` to that id, body skipped |
+| BeginRequest, id ≠ `E.id`                                           | `noise`     | reply `EndRequest(CantMpxConn)` to that id |
+| GetValues, id 0, content non-empty                                  | `noise`     | reply `GetValuesResult` (known variables of the body) |
+| anything else (Stdin/Data/AbortRequest of other ids, Params, …)     | `noise`     | skipped, no reply (`Spec.owed = []`) |
+
+Tail (`refTail`): fewer than 8 bytes → nothing, wait; version byte `v ≠ 1` → `Err(UnknownVersion(v))`,
+header left in place; version-1 header of an incomplete record → classified like a record's header
+(`hclass`): stop in front of it, or the payload bytes that are there count (stream data; the reply
+triggered by the header; the `GetValuesResult` once the body is complete).
 -/
 namespace Fcgi.C03SI
 open Fcgi Fcgi.Str Fcgi.Spec
@@ -185,7 +207,7 @@ theorem last_call {E : Cfg} {p0 : Parser} (h0 : Start E p0) (ops : List Op) (new
         (refWire E (p0.raw ++ fedBytes (ops ++ [.parse new dest]) ++ x)).verdict ∧
       (Rem E ((applyOps p0 ops).parse new dest).1 x).unread =
         (refWire E (p0.raw ++ fedBytes (ops ++ [.parse new dest]) ++ x)).unread ∧
-      (NoErrDest p0 (ops ++ [.parse new dest]) → lost = []) ∧
+      (FirstErrInternal p0 (ops ++ [.parse new dest]) → lost = []) ∧
       Match E ((applyOps p0 ops).parse new dest).1 ∧
       (match ((applyOps p0 ops).parse new dest).2 with
        | .ok st => st.streamEnd = true →
@@ -228,8 +250,9 @@ theorem last_call {E : Cfg} {p0 : Parser} (h0 : Start E p0) (ops : List Op) (new
 legal history returns `Err e`, then — for every continuation `x` of the bytes fed — the reference
 verdict is `err e` (`AbortRequest` in front of that record, `UnknownVersion v` for that header);
 all reference replies have been generated; the parser's unread remainder is the reference's; and
-the stream bytes reported before the failing call are a prefix of the reference content.  If no
-call into a `dest` failed, the available stream bytes are exactly the reference content. -/
+the stream bytes reported before the failing call are a prefix of the reference content.  If the
+first failing call is one into the internal buffer, the available stream bytes are exactly the
+reference content. -/
 theorem err_only_where_ref_says {E : Cfg} {p0 : Parser} (h0 : Start E p0) (ops : List Op)
     (new : Bytes) (dest : Option Nat) (hl : LegalAll p0 (ops ++ [.parse new dest])) (hns : NoSet ops)
     {q' : Parser} {e : PErr} (hp : (applyOps p0 ops).parse new dest = (q', .err e)) (x : Bytes) :
@@ -239,7 +262,7 @@ theorem err_only_where_ref_says {E : Cfg} {p0 : Parser} (h0 : Start E p0) (ops :
     q'.raw ++ x = (refWire E (p0.raw ++ fedBytes (ops ++ [.parse new dest]) ++ x)).unread ∧
     deliveredOps p0 ops <+:
       (refWire E (p0.raw ++ fedBytes (ops ++ [.parse new dest]) ++ x)).content ∧
-    (NoErrDest p0 (ops ++ [.parse new dest]) → availOps p0 (ops ++ [.parse new dest]) =
+    (FirstErrInternal p0 (ops ++ [.parse new dest]) → availOps p0 (ops ++ [.parse new dest]) =
       (refWire E (p0.raw ++ fedBytes (ops ++ [.parse new dest]) ++ x)).content) := by
   obtain ⟨lost, hc, ho, hv, hu, hn, -, mt⟩ := last_call h0 ops new dest hl hns x
   rw [hp] at hc ho hv hu mt
@@ -296,7 +319,58 @@ theorem end_only_where_ref_says {E : Cfg} {p0 : Parser} (h0 : Start E p0) (ops :
   rw [mt hse] at hc ho hv hu
   simp only [List.append_nil] at hc ho
   refine ⟨hv.symm, ho, hu, ?_⟩
-  rw [delivered_eq_avail h0.inv hl hef, ← hc, hn hef.noErrDest, List.append_nil]
+  rw [delivered_eq_avail h0.inv hl hef, ← hc, hn hef.firstErrInternal, List.append_nil]
+
+/-! ### The same in terms of records and tail -/
+
+/-- **Where an `Err` comes from.**  If a call returns `Err e`, then with `(rs, tail)` the
+decomposition of the bytes (fed so far, followed by any `x`): either `refRun` stops with
+`abort k` — `e = AbortRequest`, and the unread remainder begins with record `k` —, or no record
+stops the parser and the tail begins with a fatal header — version byte `v ≠ 1` and
+`e = UnknownVersion(v)`, or a (truncated) `AbortRequest` header of this request — which is the
+unread remainder. -/
+theorem err_in_records {E : Cfg} {p0 : Parser} (h0 : Start E p0) (ops : List Op)
+    (new : Bytes) (dest : Option Nat) (hl : LegalAll p0 (ops ++ [.parse new dest])) (hns : NoSet ops)
+    {q' : Parser} {e : PErr} (hp : (applyOps p0 ops).parse new dest = (q', .err e)) (x w : Bytes)
+    (hw : w = p0.raw ++ fedBytes (ops ++ [.parse new dest]) ++ x) :
+    (∃ k, (refRun E (decomp w).1).stop = .abort k ∧ e = .abortRequest ∧
+      q'.raw ++ x = serAll ((decomp w).1.drop k) ++ (decomp w).2) ∨
+    ((refRun E (decomp w).1).stop = .ranOut ∧ q'.raw ++ x = (decomp w).2 ∧
+      ∃ b0 b1 b2 b3 b4 b5 b6 b7 rest,
+        (decomp w).2 = b0 :: b1 :: b2 :: b3 :: b4 :: b5 :: b6 :: b7 :: rest ∧
+        ((b0.toNat ≠ 1 ∧ e = .unknownVersion b0) ∨
+         (b0.toNat = 1 ∧ b1.toNat = RT.abortRequest ∧ be16 b2 b3 = E.id ∧ e = .abortRequest))) := by
+  obtain ⟨hv, -, hu, -, -⟩ := err_only_where_ref_says h0 ops new dest hl hns hp x
+  rw [← hw] at hv hu
+  rcases verdict_in_records E w (by rw [hv]; exact fun h => by cases h) with
+    ⟨k, (⟨_, h2⟩ | ⟨h1, h2⟩), h3⟩ | ⟨h1, h2, h3⟩
+  · rw [hv] at h2; cases h2
+  · rw [hv] at h2
+    cases h2
+    exact Or.inl ⟨k, h1, rfl, hu.trans h3⟩
+  · rw [hv] at h2
+    exact Or.inr ⟨h1, hu.trans h3, refTail_err h2⟩
+
+/-- **Where `stream_end` comes from**: `refRun` stops with `endOfStream k` (the unread remainder
+begins with record `k`: the stream's empty record or a record of a later stream), or no record
+stops the parser and the tail begins with such a record's header (the record itself truncated). -/
+theorem end_in_records {E : Cfg} {p0 : Parser} (h0 : Start E p0) (ops : List Op)
+    (new : Bytes) (dest : Option Nat) (hl : LegalAll p0 (ops ++ [.parse new dest])) (hns : NoSet ops)
+    {q' : Parser} {st : Status} (hp : (applyOps p0 ops).parse new dest = (q', .ok st))
+    (hse : st.streamEnd = true) (x w : Bytes)
+    (hw : w = p0.raw ++ fedBytes (ops ++ [.parse new dest]) ++ x) :
+    (∃ k, (refRun E (decomp w).1).stop = .endOfStream k ∧
+      q'.raw ++ x = serAll ((decomp w).1.drop k) ++ (decomp w).2) ∨
+    ((refRun E (decomp w).1).stop = .ranOut ∧ q'.raw ++ x = (decomp w).2 ∧
+      (refTail E (decomp w).2).verdict = .eos) := by
+  obtain ⟨hv, -, hu, -⟩ := end_only_where_ref_says h0 ops new dest hl hns hp hse x
+  rw [← hw] at hv hu
+  rcases verdict_in_records E w (by rw [hv]; exact fun h => by cases h) with
+    ⟨k, (⟨h1, _⟩ | ⟨_, h2⟩), h3⟩ | ⟨h1, h2, h3⟩
+  · exact Or.inl ⟨k, h1, hu.trans h3⟩
+  · rw [hv] at h2; cases h2
+  · rw [hv] at h2
+    exact Or.inr ⟨h1, hu.trans h3, h2⟩
 
 /-! ## 3'. Exactness at drained states; chunk invariance -/
 
@@ -328,13 +402,14 @@ def refOutcome (E : Cfg) (w : Bytes) : Outcome :=
 the reference outcome of the bytes fed: all replies `refRun` prescribes, in order, nothing else;
 the next call returns the reference's fatal error / `stream_end` / nothing; the unread remainder is
 the reference's.  The stream bytes made available are the reference content up to `lost`
-(bytes written into a `dest` by a call that returned `Err`); the reported ones are a prefix, and
-equal if no call failed. -/
+(bytes written into a `dest` by the first call that returned `Err`: none if that call was one into
+the internal buffer, `FirstErrInternal`); the reported ones are a prefix, and equal if no call
+failed. -/
 theorem drained_outcome {E : Cfg} {p0 : Parser} (h0 : Start E p0) (ops : List Op)
     (hl : LegalAll p0 ops) (hns : NoSet ops) (hdr : Drained (applyOps p0 ops)) :
     outcome p0 ops = refOutcome E (p0.raw ++ fedBytes ops) ∧
     (∃ lost, availOps p0 ops ++ lost = (refWire E (p0.raw ++ fedBytes ops)).content ∧
-      (NoErrDest p0 ops → lost = [])) ∧
+      (FirstErrInternal p0 ops → lost = [])) ∧
     deliveredOps p0 ops <+: (refWire E (p0.raw ++ fedBytes ops)).content ∧
     (ErrFree p0 ops → deliveredOps p0 ops = (refWire E (p0.raw ++ fedBytes ops)).content) := by
   obtain ⟨lost, m, i, hc, ho, hv, hu, hn⟩ :=
@@ -349,7 +424,7 @@ theorem drained_outcome {E : Cfg} {p0 : Parser} (h0 : Start E p0) (ops : List Op
   have ha : availOps p0 ops <+: (refWire E (p0.raw ++ fedBytes ops)).content := ⟨lost, hc⟩
   refine ⟨?_, ⟨lost, hc, hn⟩, (delivered_le_avail h0.inv hl).trans ha, fun hef => ?_⟩
   · simp only [outcome, refOutcome, ho, hpr, hv, hu]
-  · rw [delivered_eq_avail h0.inv hl hef, ← hc, hn hef.noErrDest, List.append_nil]
+  · rw [delivered_eq_avail h0.inv hl hef, ← hc, hn hef.firstErrInternal, List.append_nil]
 
 /-- If the reference verdict of the bytes fed is not a fatal error, no call of a drained history
 failed. -/
@@ -373,15 +448,15 @@ same state that feed the same bytes — in any chunking, with any `dest` sizes o
 buffer, with any interleaving of `consume_stream` / `compress` / `consume_output` — and have both
 processed what they fed, agree on: all replies generated, the outcome of the next call (the
 specific fatal error, or `stream_end`, or neither), and the unread remainder.  They agree on the
-stream bytes made available unless a `parse` into a `dest` returned `Err`; the reported stream
-bytes agree whenever the outcome is not a fatal error, and are always prefix-comparable (both are
-prefixes of the reference content). -/
+stream bytes made available unless the first `parse` that returned `Err` was one into a `dest`;
+the reported stream bytes agree whenever the outcome is not a fatal error, and are always
+prefix-comparable (both are prefixes of the reference content). -/
 theorem str_chunk_invariance {E : Cfg} {p0 : Parser} (h0 : Start E p0) {ops₁ ops₂ : List Op}
     (hl₁ : LegalAll p0 ops₁) (hl₂ : LegalAll p0 ops₂) (hns₁ : NoSet ops₁) (hns₂ : NoSet ops₂)
     (hfed : fedBytes ops₁ = fedBytes ops₂)
     (hd₁ : Drained (applyOps p0 ops₁)) (hd₂ : Drained (applyOps p0 ops₂)) :
     outcome p0 ops₁ = outcome p0 ops₂ ∧
-    (NoErrDest p0 ops₁ → NoErrDest p0 ops₂ → availOps p0 ops₁ = availOps p0 ops₂) ∧
+    (FirstErrInternal p0 ops₁ → FirstErrInternal p0 ops₂ → availOps p0 ops₁ = availOps p0 ops₂) ∧
     ((∀ e, (outcome p0 ops₁).probe ≠ .err e) →
       deliveredOps p0 ops₁ = deliveredOps p0 ops₂ ∧ availOps p0 ops₁ = availOps p0 ops₂) ∧
     (deliveredOps p0 ops₁ <+: deliveredOps p0 ops₂ ∨ deliveredOps p0 ops₂ <+: deliveredOps p0 ops₁) := by
@@ -429,7 +504,7 @@ theorem str_chunk_invariance_partial {E : Cfg} {p0 : Parser} (h0 : Start E p0)
     (hns₂ : NoSet ops₂) (hfed : fedBytes ops₁ = fedBytes ops₂)
     (hd₁ : Drained (applyOps p0 ops₁)) (hd₂ : Drained (applyOps p0 ops₂)) :
     outcome p0 ops₁ = outcome p0 ops₂ ∧
-    (NoErrDest p0 ops₁ → NoErrDest p0 ops₂ → availOps p0 ops₁ = availOps p0 ops₂) ∧
+    (FirstErrInternal p0 ops₁ → FirstErrInternal p0 ops₂ → availOps p0 ops₁ = availOps p0 ops₂) ∧
     ((∀ e, (outcome p0 ops₁).probe ≠ .err e) →
       deliveredOps p0 ops₁ = deliveredOps p0 ops₂ ∧ availOps p0 ops₁ = availOps p0 ops₂) ∧
     (deliveredOps p0 ops₁ <+: deliveredOps p0 ops₂ ∨ deliveredOps p0 ops₂ <+: deliveredOps p0 ops₁) :=
@@ -516,7 +591,7 @@ def hOps2 : List Op :=
   [.parse (hWire.take 5) (some 1), .parse ((hWire.drop 5).take 8) (some 1), .parse [] (some 1),
    .compress, .parse ((hWire.drop 13).take 30) (some 4), .consumeOutput 7,
    .parse ((hWire.drop 43).take 30) none, .consumeStream 1, .compress,
-   .parse ((hWire.drop 73).take 33) (some 3), .consumeOutput 100, .parse (hWire.drop 106) (some 3),
+   .parse ((hWire.drop 73).take 33) (some 3), .consumeOutput 100, .parse (hWire.drop 106) none,
    .parse [] (some 3)]
 
 theorem hLegal1 : LegalAll hP hOps1 := by decide +kernel
@@ -544,7 +619,8 @@ example : outcome hP hOps1 = ⟨(refRun hE hRecs).out, .err (.unknownVersion 2),
     availOps hP hOps1 = [65, 66, 67] ∧ availOps hP hOps2 = [65, 66, 67] ∧
     deliveredOps hP hOps1 = [] ∧ deliveredOps hP hOps2 = [65, 66, 67] := by decide +kernel
 
-/-- No call into a `dest` failed in either schedule, so the available bytes agree by the theorem. -/
+/-- In both schedules the first failing call is one into the internal buffer, so the available
+bytes agree by the theorem. -/
 example : availOps hP hOps1 = availOps hP hOps2 :=
   (str_chunk_invariance hStart hLegal1 hLegal2 hNoSet1 hNoSet2 hFed hDrained1 hDrained2).2.1
     (by decide +kernel) (by decide +kernel)
